@@ -42,7 +42,9 @@ impl Grad {
     /// Absolute value
     #[inline]
     pub fn abs(self) -> Self {
-        if self.v < 0.0 {
+        // Test the sign bit (not `< 0.0`), so that `abs(-0.0)` is `+0.0`
+        // like in every other evaluator
+        if self.v.is_sign_negative() {
             Grad {
                 v: -self.v,
                 dx: -self.dx,
